@@ -50,6 +50,7 @@ pub struct Probes {
     pub recharge_acts: u64,
     pub recharge_limit_tight: u64,
     pub time_dependent_legs: u64,
+    pub time_dependent_tolerance_exhausted: u64,
 }
 
 impl Probes {
@@ -59,7 +60,7 @@ impl Probes {
             tours, activities, multi_activity_stops, waiting_acts, tw_tight, cap_tight, dist_limit_tight,
             dur_limit_tight, size_limit_tight, reload_acts, break_acts, tours_too_ambiguous, multi_jobs_assigned, unassigned,
             skipped_time_replay, tags_checked, order_checked, groups_checked, compat_checked, skills_checked,
-            unreachable_checked, relations_checked, resources_checked, shift_latest_tight, open_tours, clustered_acts, recharge_acts, recharge_limit_tight, time_dependent_legs
+            unreachable_checked, relations_checked, resources_checked, shift_latest_tight, open_tours, clustered_acts, recharge_acts, recharge_limit_tight, time_dependent_legs, time_dependent_tolerance_exhausted
         );
     }
     pub fn to_json(&self) -> serde_json::Value {
@@ -68,7 +69,7 @@ impl Probes {
             tours, activities, multi_activity_stops, waiting_acts, tw_tight, cap_tight, dist_limit_tight,
             dur_limit_tight, size_limit_tight, reload_acts, break_acts, tours_too_ambiguous, multi_jobs_assigned, unassigned,
             skipped_time_replay, tags_checked, order_checked, groups_checked, compat_checked, skills_checked,
-            unreachable_checked, relations_checked, resources_checked, shift_latest_tight, open_tours, clustered_acts, recharge_acts, recharge_limit_tight, time_dependent_legs
+            unreachable_checked, relations_checked, resources_checked, shift_latest_tight, open_tours, clustered_acts, recharge_acts, recharge_limit_tight, time_dependent_legs, time_dependent_tolerance_exhausted
         )
     }
 }
@@ -103,7 +104,8 @@ pub fn check_partition(m: &PModel, s: &SSolution, out: &mut Vec<Issue>, probes: 
                     }
                 }
                 "arrival" => {
-                    if k != acts.len() - 1 {
+                    // (a required break which falls into the time after the arrival is reported behind it, in the last stop)
+                    if acts[k + 1..].iter().any(|(_, x)| x.job_id != "break") {
                         issue(out, P, "tour-structure", format!("tour {ti}: arrival is not last"));
                     }
                 }
@@ -124,7 +126,7 @@ pub fn check_partition(m: &PModel, s: &SSolution, out: &mut Vec<Issue>, probes: 
             issue(out, P, "tour-structure", format!("tour {ti}: does not start with departure"));
         }
         if let Some((_, shift)) = veh {
-            let has_arrival = acts.last().map(|(_, a)| a.job_id.as_str()) == Some("arrival");
+            let has_arrival = acts.iter().rev().find(|(_, a)| a.job_id != "break").map(|(_, a)| a.job_id.as_str()) == Some("arrival");
             if shift.end.is_some() != has_arrival {
                 issue(out, P, "tour-structure", format!("tour {ti}: arrival presence {} but shift end {}", has_arrival, shift.end.is_some()));
             }
@@ -469,7 +471,9 @@ fn check_tour_inner(m: &PModel, ti: usize, t: &STour, assign: &BTreeMap<usize, u
     if compat.len() > 1 {
         issue(out, F, "compatibility", format!("tour {ti} mixes compatibility classes {:?}", compat));
     }
-    let n_tour_acts = flat.iter().filter(|f| f.act.job_id != "departure" && f.act.job_id != "arrival").count();
+    // (a required break is reserved time, not an activity of the tour: it is written into the document only)
+    let only_required_breaks = !shift.breaks.is_empty() && shift.breaks.iter().all(|b| !b.optional);
+    let n_tour_acts = flat.iter().filter(|f| f.act.job_id != "departure" && f.act.job_id != "arrival" && !(only_required_breaks && f.act.job_id == "break")).count();
     if let Some(limit) = vt.tour_size {
         if n_tour_acts == limit {
             probes.size_limit_tight += 1;
@@ -517,14 +521,17 @@ fn check_tour_inner(m: &PModel, ti: usize, t: &STour, assign: &BTreeMap<usize, u
     if flat[0].stop.loc != Some(shift.start_loc) {
         issue(out, F, "shift-start-location", format!("tour {ti} starts at {:?}, shift start is {}", flat[0].stop.loc, shift.start_loc));
     }
-    if dep0 < shift.earliest {
+    // (required breaks: the solver may let the vehicle take the break at the depot and leave after it; reserved time is
+    // not modelled here, the departure rules are not judged for such shifts)
+    let judge_departure = shift.breaks.iter().all(|b| b.optional);
+    if dep0 < shift.earliest && judge_departure {
         issue(out, F, "shift-start-early", format!("tour {ti} ({}) departs at {} before shift earliest {}", t.vehicle_id, dep0, shift.earliest));
     }
     if let Some(lat) = shift.latest {
         if dep0 == lat {
             probes.shift_latest_tight += 1;
         }
-        if dep0 > lat {
+        if dep0 > lat && judge_departure {
             issue(out, F, "shift-start-late", format!("tour {ti} ({}) departs at {} after shift latest {}", t.vehicle_id, dep0, lat));
         }
     }
@@ -559,9 +566,6 @@ fn check_tour_inner(m: &PModel, ti: usize, t: &STour, assign: &BTreeMap<usize, u
 
     for (i, f) in flat.iter().enumerate().skip(1) {
         probes.activities += 1;
-        if time_dependent {
-            tol += 1.0;
-        }
         let a = f.act;
         let loc = match a.loc.or(f.stop.loc) {
             Some(l) if l < n => l,
@@ -684,6 +688,16 @@ fn check_tour_inner(m: &PModel, ti: usize, t: &STour, assign: &BTreeMap<usize, u
             out.push(Issue { prop: F, rule: "unreachable-leg", msg: format!("tour {ti} drives flagged leg {prev_loc}->{loc}"), tag: if clustered_tour { "tour-with-cluster" } else { "" } });
             time_ok = false;
         }
+        if time_dependent {
+            // the error so far moves the time the leg is left at: it is amplified by the slope of the travel time, plus
+            // one unit of rounding for this activity
+            tol = tol * (1.0 + mx.slope(prev_loc, loc, tcur) * vt.scale) + 1.0;
+            if tol > 90.0 && time_ok {
+                // nothing meaningful can be said about reported times any more (counted)
+                probes.time_dependent_tolerance_exhausted += 1;
+                time_ok = false;
+            }
+        }
         let travel = raw_dur * vt.scale;
         let arr = tcur + travel;
 
@@ -707,9 +721,13 @@ fn check_tour_inner(m: &PModel, ti: usize, t: &STour, assign: &BTreeMap<usize, u
             let err = rep_end.map_or(0.0, |r| (end - r as f64).abs()) + rep_start.map_or(0.0, |r| (start - r as f64).abs());
             (late, err, start, end)
         };
+        // candidates which explain the reported times about as well as the best one (within one unit); among those a
+        // feasible one is preferred (equal places with different windows must not raise a false late alarm)
+        let best_err = cands.iter().map(|c| eval(c).1).fold(f64::INFINITY, f64::min);
         let best = cands
             .iter()
             .map(|c| (eval(c), c))
+            .filter(|x| x.0 .1 <= best_err + 1.0)
             .min_by(|x, y| {
                 let kx = ((x.0 .1 > 2.0 * tol) as u8, x.0 .0 as u8);
                 let ky = ((y.0 .1 > 2.0 * tol) as u8, y.0 .0 as u8);
@@ -1087,8 +1105,12 @@ pub fn check_relations(m: &PModel, s: &SSolution, out: &mut Vec<Issue>, probes: 
         if r.kind == "any" {
             continue;
         }
-        let ids = match own {
-            Some(t) => ids_of(t),
+        let ids: Vec<String> = match own {
+            // (a required break is reserved time written into the document, not something inserted into the tour)
+            Some(t) => {
+                let only_required = m.find_vehicle(&t.type_id, &t.vehicle_id, t.shift_index).is_some_and(|(_, s)| !s.breaks.is_empty() && s.breaks.iter().all(|b| !b.optional));
+                ids_of(t).into_iter().filter(|id| !(only_required && id == "break" && !wanted.contains("break"))).collect()
+            }
             None => {
                 out.push(Issue { prop: F, rule: "relation-missing", tag, msg: format!("relation {ri} ({}) pins jobs {:?} to {}/{} which drives no tour", r.kind, r.jobs, r.vehicle_id, r.shift_index) });
                 continue;
